@@ -396,17 +396,8 @@ theorem cyclic_flag_monotone_memo (tab : List Decl) : ∀ (fuel : Nat) (path : L
           · exact ha
           · exact cyclic_flag_monotone_memo tab fuel _ s a ha
 
-/-
-PENDING (stated, not proved): the memoised walk still reports every reachable cycle,
-
-  theorem cycle_detected_memo (tab) (n t path) : Returns tab n t path → ∀ fuel acc, n < fuel →
-      Explored tab acc → (resolveSupersMF tab fuel path t acc).2.1 = true
-
-where `Explored tab acc` says that every collected type was fully expanded (so a cycle through it
-was flagged when the first node of that cycle was entered). Until it is proved, cycle reporting of
-the memoised code is covered by the exact `sup` tie plus the independent graph oracle of
-`vlib/c06.py` (is_cyclic ⇔ a cycle of the declaration graph is reachable from the queried type).
--/
+/- `cycle_detected_memo` (the memoised walk still reports every reachable cycle) is proved in
+`Props/C06e.lean` through the ordering invariant `memo_invariant`. -/
 
 example : (resolveSupersM [⟨(1, 1), [], [.nominal false 1 2 [], .nominal false 1 2 []]⟩, ⟨(1, 2), [], []⟩]
     (.nominal false 1 1 [])).1.length = 1 := by decide
